@@ -10,9 +10,11 @@
        src/deepali/losses/flow.py, src/deepali/losses/bspline.py (module classes: argument plumbing only).
   Core Lean only.  Arrays are abstract (`A`, read through `ev : A → Arr D α`) as in Model/FlowCalc.
   `sqrt` and powers with non-integer exponents are NOT computed: they enter as functions supplied by
-  the caller (`sqrtF`, `.fn f`).  Where the current code is defective the model follows the code
-  (lame_parameters (ν,E) and (λ,E) branches; denormalize_flow called without `align_corners`;
-  `reduction="sum"` of inverse_consistency_loss; elasticity_loss allocating `zeros` with the input shape).
+  the caller (`sqrtF`, `.fn f`).  The model follows the code after the repairs 4eb1789, eb24e6a, a498630,
+  aeea172, 363ef5e, 1259250 (lame_parameters (ν,E) and (λ,E) branches; denormalize_flow gets the grid's
+  `align_corners`; `reduction="sum"` of inverse_consistency_loss is the sum and the masked mean counts the
+  cropped mask; elasticity_loss accumulates on the shape of the derivatives).  Still as coded: the
+  zero-padded prewitt/sobel averaging and the replicate-padded stencils (F-17d family).
 -/
 import Deepali.Model.FlowCalc
 import Deepali.Model.Losses
@@ -304,11 +306,11 @@ variable {D : Nat}
     mode='bspline' have spatial size `(n − 3) · stride` per axis. -/
 def bsplineOutSize (stride sz : Fin D → Nat) : Fin D → Nat := fun d => stride d * (sz d - 3)
 
-/-- src: functional.py:elasticity_loss @1547-1556: the accumulator is `zeros((N, 1) + u.shape[2:])` and the
-    derivatives are added in place (`loss.add_(deriv[…])`), which requires the derivative tensors to have the
-    spatial shape of `u` (RuntimeError otherwise). `osz` = spatial shape of the derivative tensors. -/
-def elasticityShapeCheck (sz osz : Fin D → Nat) : Except String Unit :=
-  if (List.finRange D).any (fun d => osz d != sz d) then .error "err:runtime" else .ok ()
+/-- src: functional.py:elasticity_loss @1546-1547 (after fix 1259250): the accumulator is
+    `zeros((N, 1) + deriv[symbol(0, 0)].shape[2:])`, i.e. it has the spatial shape of the derivative tensors
+    (`bsplineOutSize` in mode='bspline', the shape of `u` otherwise), so the in-place adds always fit. -/
+def elasticityOutSize (bspline : Bool) (stride sz : Fin D → Nat) : Fin D → Nat :=
+  if bspline then bsplineOutSize stride sz else sz
 
 end Shapes
 
@@ -339,7 +341,10 @@ def lameTable (sqrtF : α → α) (first shear poisson young : Option α) : Exce
     match shear with
     | none =>
       match poisson, young with
-      | some _, some _ => .error "err:type"     -- @1445: `(1 + poissons_ratio)(1 - 2 * poissons_ratio)` calls a float
+      | some nu, some E =>
+        do let l ← pyDiv (nu * E) ((one + nu) * (one - two * nu))              -- @1443-1446 (after fix 4eb1789)
+           let m ← pyDiv E (two * (one + nu))                                  -- @1447
+           pure (some l, some m)
       | _, _ => .ok (none, shear)
     | some G =>
       match young with
@@ -360,7 +365,7 @@ def lameTable (sqrtF : α → α) (first shear poisson young : Option α) : Exce
            pure (first, some m)
       | some E =>
         let r := sqrtF (E * E + ((9 : Nat) : α) * (lam * lam) + two * E * lam) -- @1464-1468
-        .ok (first, some (E - ((3 : Nat) : α) * lam + r / ((4 : Nat) : α)))    -- @1469 (precedence as coded)
+        .ok (first, some ((E - ((3 : Nat) : α) * lam + r) / ((4 : Nat) : α)))  -- @1469 (after fix eb24e6a)
     | some _ => .ok (first, shear)
 
 /-- src: functional.py:lame_parameters @1475-1482. -/
@@ -435,14 +440,14 @@ def denormalizeFlow (ac : Bool) (n : Fin d → Nat) (sideLength : α) (v : Vec d
 inductive Units | cube | voxel | world
   deriving DecidableEq, Repr
 
-/-- src: functional.py:inverse_consistency_loss @1672-1675: `denormalize_flow(error, size=grid.size(),
-    channels_last=True)` — `align_corners` is NOT passed, so the default `ALIGN_CORNERS = True` applies
-    whatever `grid.align_corners()` is; `error *= grid.spacing()` for 'world'. -/
-def icScale (units : Units) (n : Fin d → Nat) (spacing : Vec d α) (e : Vec d α) : Vec d α :=
+/-- src: functional.py:inverse_consistency_loss @1674-1680 (after fix a498630):
+    `denormalize_flow(error, size=grid.size(), align_corners=grid.align_corners(), channels_last=True)`;
+    `error *= grid.spacing()` for 'world'. -/
+def icScale (units : Units) (ac : Bool) (n : Fin d → Nat) (spacing : Vec d α) (e : Vec d α) : Vec d α :=
   match units with
   | .cube => e
-  | .voxel => denormalizeFlow true n ((2 : Nat) : α) e
-  | .world => (denormalizeFlow true n ((2 : Nat) : α) e).mul spacing
+  | .voxel => denormalizeFlow ac n ((2 : Nat) : α) e
+  | .world => (denormalizeFlow ac n ((2 : Nat) : α) e).mul spacing
 
 inductive Margin (α : Type) | int (k : Int) | float (r : α)
 
@@ -477,23 +482,23 @@ def icKept (n : Fin d → Nat) (m : Option (Fin d → Nat)) : List (Fin d → In
 def icVals (sqrtF : α → α) (ac : Bool) (n : Fin d → Nat) (spacing : Vec d α) (fwd inv : Transform d α)
     (mask : Option ((Fin d → Int) → α)) (units : Units) (kept : List (Fin d → Int)) : List α :=
   kept.map (fun idx =>
-    let e := icScale units n spacing (icErrMasked ac n fwd inv mask idx)
+    let e := icScale units ac n spacing (icErrMasked ac n fwd inv mask idx)
     sqrtF (sumFin d (fun i => e i * e i)))
 
-/-- src: functional.py:inverse_consistency_loss @1679-1685. -/
-def icReduce (red : Reduction) (n : Fin d → Nat) (mask : Option ((Fin d → Int) → α)) (vals : List α) :
+/-- src: functional.py:inverse_consistency_loss @1670-1672, @1683-1690 (after fix aeea172): 'sum' is the sum;
+    'mean' divides by the number of values, or — with a mask — by the number of non-zero mask values inside the
+    evaluated (margin-cropped) region `kept`; 0/0 is nan. -/
+def icReduce (red : Reduction) (mask : Option ((Fin d → Int) → α)) (kept : List (Fin d → Int)) (vals : List α) :
     Except String (List α) :=
   match red with
   | .none => .ok vals
-  | _ =>
-      let total := lsum vals
+  | .sum => .ok [lsum vals]
+  | .mean =>
       let count : Nat :=
-        if red = .mean then
-          match mask with
-          | some mk => ((icPoints n).filter (fun idx => mk idx ≠ ((0 : Nat) : α))).length   -- `(mask != 0).sum()`: the WHOLE mask
-          | none => vals.length
-        else vals.length                                                      -- also for `reduction="sum"` (as coded)
-      if count = 0 then .error "nan" else .ok [total / ((count : Nat) : α)]
+        match mask with
+        | some mk => (kept.filter (fun idx => mk idx ≠ ((0 : Nat) : α))).length   -- `(mask != 0).sum()` of the cropped mask
+        | none => vals.length
+      if count = 0 then .error "nan" else .ok [lsum vals / ((count : Nat) : α)]
 
 /-- src: functional.py:inverse_consistency_loss @1591-1685, one batch item, `grid` of integral size
     `n`, `align_corners = ac`, spacing `spacing`; `mask` has shape (1, 1, …, X). -/
@@ -501,7 +506,7 @@ def icLoss (sqrtF : α → α) (ac : Bool) (n : Fin d → Nat) (spacing : Vec d 
     (mask : Option ((Fin d → Int) → α)) (margin : Margin α) (units : Units) (red : Reduction) :
     Except String (List α) := do
   let m ← icMargins n margin
-  icReduce red n mask (icVals sqrtF ac n spacing fwd inv mask units (icKept n m))
+  icReduce red mask (icKept n m) (icVals sqrtF ac n spacing fwd inv mask units (icKept n m))
 
 end IC
 
